@@ -108,8 +108,8 @@ def rich_table(zombie=False, btime=1_700_000_000):
     t.spawn(1, 5, ppid=0, comm=b"init")
     t.spawn(2, 100, ppid=1, comm=b"harness")
     t.spawn(40, 300, ppid=1, comm=b"parent")
-    p = t.spawn(50, 500, ppid=40, comm=b"worker")
-    p.threads = [Thread(50, b"worker", 30, 40), Thread(51, b"wk-io", 1, 2), Thread(52, b"wk) r", 3, 4)]
+    p = t.spawn(50, 500, ppid=40, comm=b"wk (a) b")      # spaces and parentheses, as "tmux: server" / "(sd-pam)" have
+    p.threads = [Thread(50, b"wk (a) b", 30, 40), Thread(51, b"wk-io", 1, 2), Thread(52, b"wk) r", 3, 4)]
     p.utime, p.stime, p.cutime, p.cstime, p.blkio = 34, 46, 7, 8, 9
     p.cmdline = b"/usr/bin/worker\0--flag\0\0"
     p.environ = b"HOME=/root\0PATH=/bin\0"
